@@ -226,5 +226,128 @@ theorem precompMSM_spec (lim : Nat) (Gs : Nat → G) (tbls : Nat → Nat → Nat
     exact hs e.1 (List.fst_mem_of_mem_zipIdx he))]
   simp
 
+/-! ### the tables themselves: `NewPrecompPoint` -/
+
+theorem buildWindow_length (base : G) (n : Nat) (curr : G) : (buildWindow base n curr).length = n := by
+  induction n generalizing curr with
+  | zero => rfl
+  | succ n ih => simp [buildWindow, ih]
+
+/-- the inner loop `windows[i][j] = curr; curr += base`: entry `j` is `curr + j • base` -/
+theorem buildWindow_get (base : G) (n : Nat) (curr : G) (j : Nat) (hj : j < n) :
+    (buildWindow base n curr)[j]? = some (curr + j • base) := by
+  induction n generalizing curr j with
+  | zero => omega
+  | succ n ih =>
+    cases j with
+    | zero => simp [buildWindow]
+    | succ j =>
+      simp only [buildWindow, List.getElem?_cons_succ]
+      rw [ih (curr + base) j (by omega)]
+      congr 1
+      rw [succ_nsmul]; abel
+
+theorem buildTable_length (w : Nat) (shift : G → G) (n : Nat) (base : G) :
+    (buildTable w shift n base).length = n := by
+  induction n generalizing base with
+  | zero => rfl
+  | succ n ih => simp [buildTable, ih]
+
+/-- **The table `NewPrecompPoint` builds.** With the base update `point ← 2^w • point` between
+windows (the code's `point.ScalarMul(&point, &specialWindow)`), entry `j` of window `k` is
+`(j+1)·2^(w·k) • P` — for every window width, every number of windows and every point. -/
+theorem buildTable_spec (w : Nat) (shift : G → G) (hshift : ∀ b, shift b = (2 ^ w) • b) (n : Nat) (P : G)
+    (k : Nat) (hk : k < n) (j : Nat) (hj : j < 1 <<< (w - 1)) :
+    ((buildTable w shift n P)[k]?.bind fun win => win[j]?) = some (((j + 1) * 2 ^ (w * k)) • P) := by
+  induction n generalizing P k with
+  | zero => omega
+  | succ n ih =>
+    cases k with
+    | zero =>
+      simp only [buildTable, List.getElem?_cons_zero, Option.bind_some]
+      rw [buildWindow_get P _ P j hj]
+      congr 1
+      rw [Nat.mul_zero, pow_zero, Nat.mul_one, succ_nsmul]; abel
+    | succ k =>
+      simp only [buildTable, List.getElem?_cons_succ]
+      rw [ih (shift P) k (by omega), hshift, ← mul_nsmul']
+      congr 2
+      rw [Nat.mul_succ, pow_add]; ring
+
+/-- the table as the function `PrecompPoint.ScalarMul` indexes -/
+def tableFn (t : List (List G)) (k j : Nat) : G := ((t[k]?.bind fun win => win[j]?).getD 0)
+
+theorem tableFn_built (w : Nat) (shift : G → G) (hshift : ∀ b, shift b = (2 ^ w) • b) (n : Nat) (P : G)
+    (k : Nat) (hk : k < n) (j : Nat) (hj : j < 1 <<< (w - 1)) :
+    tableFn (buildTable w shift n P) k j = ((j + 1) * 2 ^ (w * k)) • P := by
+  unfold tableFn; rw [buildTable_spec w shift hshift n P k hk j hj]; rfl
+
+/-- the recoder only reads entries `j < 2^(w-1)` of window `k` -/
+theorem precompStep_congr (w : Nat) (hw : 0 < w) (tbl tbl' : Nat → Nat → G) (s : Nat) (st : G × Nat) (k : Nat)
+    (h : ∀ j, j < 1 <<< (w - 1) → tbl k j = tbl' k j) :
+    precompStep w tbl s st k = precompStep w tbl' s st k := by
+  have hhalf : 1 <<< w = 2 * (1 <<< (w - 1)) := by
+    simp only [Nat.one_shiftLeft]
+    rw [← Nat.pow_succ']; congr 1; omega
+  unfold precompStep
+  simp only
+  by_cases h0 : windowRaw w s k + st.2 = 0
+  · simp [h0]
+  · simp only [h0, ↓reduceIte]
+    by_cases hbig : windowRaw w s k + st.2 > 1 <<< (w - 1)
+    · simp only [hbig, ↓reduceIte]
+      by_cases hz : 1 <<< w - (windowRaw w s k + st.2) ≠ 0
+      · simp only [hz, ne_eq, not_false_eq_true, ↓reduceIte]
+        rw [h _ (by omega)]
+      · simp only [hz, ↓reduceIte]
+    · simp only [hbig, ↓reduceIte]
+      rw [h _ (by omega)]
+
+theorem precompScalarMul_congr (w : Nat) (hw : 0 < w) (tbl tbl' : Nat → Nat → G) (s : Nat) (acc : G)
+    (h : ∀ k, k < 256 / w → ∀ j, j < 1 <<< (w - 1) → tbl k j = tbl' k j) :
+    precompScalarMul w tbl s acc = precompScalarMul w tbl' s acc := by
+  unfold precompScalarMul
+  have key : ∀ (l : List Nat) (st : G × Nat), (∀ k ∈ l, k < 256 / w) →
+      l.foldl (precompStep w tbl s) st = l.foldl (precompStep w tbl' s) st := by
+    intro l
+    induction l with
+    | nil => intro st _; rfl
+    | cons k l ih =>
+      intro st hl
+      simp only [List.foldl_cons]
+      rw [precompStep_congr w hw tbl tbl' s st k (h k (hl k (by simp)))]
+      exact ih _ (fun x hx => hl x (by simp [hx]))
+  rw [key _ _ (fun k hk => List.mem_range.mp hk)]
+
+/-- **`NewPrecompPoint` followed by `PrecompPoint.ScalarMul`**: with the table the constructor
+builds (`256/w` windows of `2^(w-1)` entries, base multiplied by `2^w` between windows), the
+recoder adds exactly `s • P`, for every scalar below `2^255`. -/
+theorem precompScalarMul_built (w s : Nat) (hw : 0 < w) (hdvd : w ∣ 64) (hs : s < 2 ^ 255)
+    (shift : G → G) (hshift : ∀ b, shift b = (2 ^ w) • b) (P acc : G) :
+    precompScalarMul w (tableFn (buildTable w shift (256 / w) P)) s acc = acc + s • P := by
+  rw [precompScalarMul_congr w hw _ (fun k j => ((j + 1) * 2 ^ (w * k)) • P) s acc
+    (fun k hk j hj => tableFn_built w shift hshift (256 / w) P k hk j hj)]
+  exact precompScalarMul_spec w s hw hdvd hs P acc _ (fun _ _ => rfl)
+
+/-- **`NewPrecompMSM` followed by `MSMPrecomp.MSM`** over the tables the constructor builds. -/
+theorem precompMSM_built (lim : Nat) (Gs : Nat → G) (scalars : List Nat) (hs : ∀ s ∈ scalars, s < 2 ^ 255) :
+    precompMSM lim (fun i => tableFn (buildTable (if i < lim then 16 else 8)
+        (fun b => (2 ^ (if i < lim then 16 else 8)) • b) (256 / (if i < lim then 16 else 8)) (Gs i))) scalars
+      = ((List.zipIdx scalars).map fun e => e.1 • Gs e.2).sum := by
+  have hcongr : precompMSM lim (fun i => tableFn (buildTable (if i < lim then 16 else 8)
+        (fun b => (2 ^ (if i < lim then 16 else 8)) • b) (256 / (if i < lim then 16 else 8)) (Gs i))) scalars
+      = precompMSM lim (fun i k j => ((j + 1) * 2 ^ ((if i < lim then 16 else 8) * k)) • Gs i) scalars := by
+    unfold precompMSM
+    apply List.foldl_ext
+    intro acc e _
+    by_cases h0 : e.1 = 0
+    · simp [h0]
+    · simp only [h0, ↓reduceIte]
+      have hw : (0:ℕ) < (if e.2 < lim then 16 else 8) := by split <;> norm_num
+      exact precompScalarMul_congr _ hw _ _ _ _
+        (fun k hk j hj => tableFn_built _ _ (fun _ => rfl) _ (Gs e.2) k hk j hj)
+  rw [hcongr]
+  exact precompMSM_spec lim Gs _ (fun _ _ _ => rfl) scalars hs
+
 end msm
 end GoIpa.C05
